@@ -138,15 +138,27 @@ def _run_map_mode(pipeline, case, mode, folder, pos_pick=None):
             ex.shutdown(wait=True)
 
 
-def inject_map(v, case, env, exp_calls, fname, ext_idx, term, spec, mode, scratch, tag, budget=WATCHDOG, variant=0):
+def inject_map(v, case, env, exp_calls, fname, ext_idx, term, spec, mode, scratch, tag, budget=WATCHDOG, variant=0,
+               reuse=None, second=None):
+    """One injected failure.  `reuse` = (pipeline, fault, log) of an earlier injection on the SAME pipeline object
+    (the fault plan is mutated in place); `second` = (fname2, ext_idx2, term2, spec2) to inject afterwards on the
+    same object (in-process modes): the snapshot must then describe the second failure."""
     from pipefunc.map import load_outputs
 
-    w = dict(case=mapgen.describe(case), failing=[fname, term], exc=spec, mode=mode)
-    log = probes.new_log(scratch)
+    w = dict(case=mapgen.describe(case), failing=[fname, term], exc=spec, mode=mode, second_failure_on_same_object=reuse is not None)
     folder = os.path.join(scratch, f"run-{tag}")
-    fault = {fname: {"raise": {term: spec}}}
-    with quiet():
-        pipeline = mapgen.build_pipeline(case, log=log, fault=fault)
+    if reuse is None:
+        log = probes.new_log(scratch)
+        fault = {f["name"]: {"raise": {}} for f in case["funcs"]}
+        with quiet():
+            pipeline = mapgen.build_pipeline(case, log=log, fault=fault)
+    else:
+        pipeline, fault, log = reuse
+        probes.log_clear(log)
+        v.count("second_failures_on_same_object")
+    for d in fault.values():
+        d["raise"].clear()
+    fault[fname]["raise"][term] = spec
     n_total = len(exp_calls[fname])
 
     def pick(n, bno):
@@ -162,7 +174,9 @@ def inject_map(v, case, env, exp_calls, fname, ext_idx, term, spec, mode, scratc
             _run_map_mode(pipeline, case, mode, folder, pick)
     except Hang as h:
         return "hang", "".join(traceback.format_tb(h.__traceback__))[-1500:]
-    except Exception as e:  # noqa: BLE001
+    except BaseException as e:  # noqa: BLE001  (e.g. asyncio.CancelledError is not an Exception)
+        if isinstance(e, (KeyboardInterrupt, SystemExit)):
+            raise
         err = e
     v.count("injections")
     v.count(f"injections:{mode}:{spec[0]}")
@@ -235,6 +249,10 @@ def inject_map(v, case, env, exp_calls, fname, ext_idx, term, spec, mode, scratc
                         v.bad(f"completed-element-lost/{mode}", f"element {eidx} of {o} completed before the failure but loads as {got[:120]}", **w)
                 elif got != want and "<MASKED>" not in got:
                     v.bad(f"uncompleted-element-garbage/{mode}", f"element {eidx} of {o} never completed but loads as {got[:120]}", **w)
+    if second is not None and mode in ("seq", "thread", "controlled", "async-thread", "async-controlled"):
+        f2, e2, t2, s2 = second
+        inject_map(v, case, env, exp_calls, f2, e2, t2, s2, mode, scratch, tag + "-2nd", budget=budget, variant=variant,
+                   reuse=(pipeline, fault, log))
     return "done", None
 
 
@@ -266,7 +284,12 @@ def run_map_case(v, desc, scratch):
             modes = MAP_MODES if n % 3 == 0 else rng.sample(MAP_MODES, 3)
             for mode in modes:
                 n += 1
-                st, info = inject_map(v, case, env, exp_calls, fname, eidx, term, spec, mode, scratch, f"{n}", variant=n)
+                second = None
+                if n % 4 == 0 and len(points) > 1:
+                    f2, e2, t2, _, _ = points[(n // 4) % len(points)]
+                    if (f2, t2) != (fname, term):
+                        second = (f2, e2, t2, EXC[(ei + 1) % len(EXC)])
+                st, info = inject_map(v, case, env, exp_calls, fname, eidx, term, spec, mode, scratch, f"{n}", variant=n, second=second)
                 if st == "hang":
                     v.count("watchdog_fired")
                     st2, info2 = inject_map(v, case, env, exp_calls, fname, eidx, term, spec, mode, scratch, f"{n}b",
@@ -315,8 +338,9 @@ def run_call_case(v, desc, scratch):
                 spec = EXC[ei]
                 form = rng.choice(["call", "run", "full"])
                 log = probes.new_log(scratch)
+                fault_d = {fname: {"raise": {term: spec}}}
                 with quiet():
-                    pipeline = daggen.build_pipeline(case, log=log, fault={fname: {"raise": {term: spec}}})
+                    pipeline = daggen.build_pipeline(case, log=log, fault=fault_d)
                 w = dict(case=daggen.describe(case), output=out, failing=[fname, term], exc=spec, mode=form)
                 err = None
                 try:
@@ -349,6 +373,23 @@ def run_call_case(v, desc, scratch):
                     v.bad(f"later-generation-invoked/{form}", f"{after} invoked after the failing call", **w)
                 _check_snapshot(v, pipeline, fname, spec, scratch, form, w)
                 keys.append(f"{daggen.signature(case)}|{out}|{fname}|{spec[0]}|{form}")
+                # a second, different failure on the same pipeline object: the snapshot must describe it
+                spec2 = EXC[(ei + 1) % len(EXC)]
+                fault_d[fname]["raise"][term] = spec2
+                try:
+                    with deadline(WATCHDOG), quiet():
+                        pipeline(out, **K)
+                    err2 = None
+                except Hang:
+                    continue
+                except Exception as e:  # noqa: BLE001
+                    err2 = e
+                v.count("second_failures_on_same_object")
+                if err2 is None:
+                    v.bad(f"failure-swallowed/{form}", "second failing call returned normally", **w)
+                else:
+                    _check_exception(v, err2, spec2, fname, items, form + "/second-failure", w)
+                    _check_snapshot(v, pipeline, fname, spec2, scratch, form + "/second-failure", w)
     return keys
 
 
@@ -380,6 +421,8 @@ def finalize(agg, tier, seed):
             floors.append(f"failing index {pos}: {c.get(f'failing_index_{pos}', 0)} (< 200)")
     if c.get("snapshots_checked", 0) < 500:
         floors.append("fewer than 500 snapshots checked")
+    if c.get("second_failures_on_same_object", 0) < 200:
+        floors.append("fewer than 200 second failures on the same pipeline object")
     if c.get("completed_elements_checked", 0) < 200:
         floors.append("fewer than 200 completed elements checked after a failure")
     return floors, {}
